@@ -238,6 +238,12 @@ func main() {
 			dead = append(dead, i)
 			continue
 		}
+		if r.err != nil && len(p.Violations) == 0 {
+			// the worker failed (panic, os.Exit, signal) although it reported no
+			// violation: nothing it counted can be trusted
+			dead = append(dead, i)
+			continue
+		}
 		evals += p.Evaluations
 		for k, v := range p.Classes {
 			classes[k] += v
